@@ -16,6 +16,7 @@ independent axes.
 from operator import xor
 
 import numpy as np
+from pb_bss import _verif
 from dataclasses import dataclass
 from pb_bss.distribution import (
     ComplexAngularCentralGaussian,
@@ -182,6 +183,7 @@ class VMFCACGMMTrainer:
                     inline_permutation_alignment=inline_permutation_alignment,
                     affiliation_eps=affiliation_eps,
                 )
+                if _verif.enabled: _verif.emit('estep', trainer=self, iteration=iteration, model=model, affiliation=affiliation, quadratic_form=quadratic_form)
 
             model = self._m_step(
                 observation,
@@ -198,6 +200,7 @@ class VMFCACGMMTrainer:
                 spatial_weight=spatial_weight,
                 spectral_weight=spectral_weight
             )
+            if _verif.enabled: _verif.emit('mstep', trainer=self, iteration=iteration, model=model, affiliation=affiliation, quadratic_form=quadratic_form)
 
         return model
 
